@@ -209,6 +209,19 @@ let () =
                      if not (qeq_bool (x +/ x) (q_of_int !tot2)) then
                        failc "SPEC" (nm "pick_area") (Printf.sprintf "impl=%s pick=%d/2 %s" (qs x) !tot2 gr.dump)
                    | None -> ());
+                  (* the slab functional of C01 on the definitional point set (inG): the hypotheses of
+                     theorem shoelace_is_slab_area_holes are evaluated (winding condition of every ring,
+                     nesting at the trapezoid witnesses), and the exact area of the point set itself is
+                     compared with the implementation's Area *)
+                  if tg = "base" && List.length (List.concat_map (fun rs -> List.concat rs) lats) <= 60 then begin
+                    count "oracle_slab";
+                    List.iter (fun y -> if not (slab_hypotheses y) then failc "CORR" "slab_hypotheses" gr.dump) ps;
+                    let tot = List.fold_left (fun acc y -> acc +/ slab_area y) q0 ps in
+                    (match o.a with
+                     | Some x -> if not (qeq_bool x tot) then
+                         failc "SPEC" (nm "slab_area") (Printf.sprintf "impl=%s slab area of the point set=%s %s" (qs x) (qs tot) gr.dump)
+                     | None -> ())
+                  end;
                   (* unit cells of rectilinear polygons: area and centre of mass *)
                   let top_areal = (match g with GPoly _ | GMPoly _ -> true | _ -> false) in
                   if top_areal && List.for_all (fun rs -> List.for_all rectilinear rs) lats then begin
